@@ -44,12 +44,34 @@ def features(tree):
             c['literal_arithmetic'] += 1
         elif isinstance(n, ast.JoinedStr):
             c['f_strings'] += 1
+            for v in n.values:
+                if isinstance(v, ast.FormattedValue):
+                    c['string_literals_inside_fstring_fields'] += sum(1 for x in ast.walk(v.value) if isinstance(x, ast.Constant) and isinstance(x.value, (str, bytes)))
+                    c['fstring_fields_with_format_spec'] += 1 if v.format_spec is not None else 0
         elif isinstance(n, (ast.ListComp, ast.SetComp, ast.DictComp, ast.GeneratorExp)):
             c['comprehensions'] += 1
         elif isinstance(n, ast.Try):
             c['try_statements'] += 1
         elif isinstance(n, ast.Assert):
             c['asserts'] += 1
+        elif isinstance(n, ast.Subscript) and isinstance(n.slice, ast.Constant) and isinstance(n.slice.value, str):
+            c['string_subscripts'] += 1
+        elif isinstance(n, ast.Dict):
+            c['dict_string_keys'] += sum(1 for k in n.keys if isinstance(k, ast.Constant) and isinstance(k.value, str))
+        elif isinstance(n, ast.keyword) and isinstance(n.value, ast.Constant):
+            c['keyword_literal_arguments'] += 1
+        elif isinstance(n, (ast.With, ast.AsyncWith)):
+            c['with_statements'] += 1
+        elif isinstance(n, ast.NamedExpr):
+            c['walrus'] += 1
+        elif isinstance(n, ast.Match):
+            c['match_statements'] += 1
+        elif isinstance(n, (ast.AsyncFunctionDef, ast.Await)):
+            c['async_constructs'] += 1
+        elif isinstance(n, ast.Starred):
+            c['starred'] += 1
+        elif isinstance(n, ast.Compare) and len(n.ops) > 1:
+            c['comparison_chains'] += 1
     c['distinct_string_literals'] = len(strs)
     # the same plain import more than once in one body
     for n in ast.walk(tree):
